@@ -473,6 +473,27 @@ func verifScenarioFlatFindMissing() {
 	if err == nil {
 		vnd.Cover("findmissing-ok")
 		vnd.Assert(missing.Length() <= 2, "more digests reported missing than were asked about")
+		// whatever happened in between: the answer for each digest reflects the index's LAST
+		// word on it during the call (found: present; NOT_FOUND, e.g. because the object was
+		// rotated out between the two scans: missing)
+		for _, d := range set.Items() {
+			k := f.ba.getKey(d)
+			last := -1
+			for i, g := range f.klm.history {
+				if g.key == k {
+					last = i
+				}
+			}
+			isMissing := false
+			for _, m := range missing.Items() {
+				if m == d {
+					isMissing = true
+				}
+			}
+			if last >= 0 {
+				vnd.Assert(isMissing == (f.klm.history[last].kind == 1), "FindMissing answer for a digest contradicts the index's last answer for it during the call (e.g. an object that vanished between the scans reported present)")
+			}
+		}
 		if f.klm.fixed {
 			// quiescent index: reported missing iff the index says NOT_FOUND
 			for _, d := range set.Items() {
